@@ -175,4 +175,15 @@ theorem view_run_gen (ops : List Op) (s : St) (c : Nat) :
   | nil => rfl
   | cons op ops ih => simp only [List.foldl_cons, ih, view_step]
 
+/-! ### what a reported exit leaves in the invocation log / the settled futures -/
+def doneCalls (c r st : Nat) : List Call :=
+  match decodeStatus st with
+  | some code => [{ child := c, reg := r, code := code, cleared := true }]
+  | none => []
+
+def doneFuts (c r : Nat) (m : Mode) (st : Nat) : List (Nat × Nat × Fut) :=
+  match decodeStatus st with
+  | some code => (match futOf m code with | some f => [(c, r, f)] | none => [])
+  | none => []
+
 end TornadoModel.C42
